@@ -54,3 +54,30 @@ Theorem C07_rule_memory_fold : forall p0 pl0 rest,
     FMem en ad da.
 Proof. exact rule_fin_mem. Qed.
 Print Assumptions C07_rule_memory_fold.
+
+(* The WHOLE of _current_select is regenerated: its two inner helpers are translated from the source
+   (and_with_possible_none; between_otherwise_and_current with its last-otherwise index and slices) and
+   the function is assembled over the stack in python order.  On every stack it returns exactly the
+   (select, pred_set) that the model's _build uses (current_lits / sel_of_lits over the model's reversed
+   representation, python_stack = rev (map rev stk)). *)
+Theorem C07_rule_and_with_possible_none : forall a b, gen_and_with_possible_none a (Some b) = and_opt a b.
+Proof. exact rule_and_opt. Qed.
+Print Assumptions C07_rule_and_with_possible_none.
+
+Theorem C07_rule_between_otherwise_and_current : forall c pre,
+  gen_between_otherwise_and_current (rev (c :: pre)) = map CP (rev (since_oth pre)).
+Proof. exact rule_between. Qed.
+Print Assumptions C07_rule_between_otherwise_and_current.
+
+Theorem C07_rule_current_select : forall stk,
+  gen_current_select (rev (map (@rev cond) stk)) = (sel_of_lits (current_lits stk), current_lits stk).
+Proof. exact rule_current_select. Qed.
+Print Assumptions C07_rule_current_select.
+
+(* non-vacuity: the python stack [[a, otherwise, b, c], [d, e], []] (inside `with c:` then `with e:`):
+   select = ~b & c & ~d & e, pred_set = {(b,True), (c,False), (d,True), (e,False)} *)
+Example C07_rule_current_select_example :
+  gen_current_select [[CP 0; COth; CP 1; CP 2]; [CP 3; CP 4]; []]
+  = (Some (BAnd (BAnd (BAnd (BNot (BVar 1)) (BVar 2)) (BNot (BVar 3))) (BVar 4)),
+     [(1, true); (2, false); (3, true); (4, false)]).
+Proof. vm_compute. reflexivity. Qed.
